@@ -193,7 +193,9 @@ func (c *Context) ActorOf(actor vivid.Actor, options ...vivid.ActorOption) (vivi
 		Type:     reflect.TypeOf(actor),
 	})
 
-	if status == killing {
+	// 父级可能在本次创建期间才进入终止流程（System.ActorOf 运行在调用方 goroutine 上，与根 Actor 的终止并发）：
+	// 以子 Actor 登记完成之后的状态为准，否则该子 Actor 既不会被父级的终止流程遍历到，也不会在此被终止，成为泄漏的孤儿。
+	if status == killing || atomic.LoadInt32(&c.state) != running {
 		c.Kill(childCtx.ref, false, "parent killed")
 	}
 	return childCtx.Ref(), nil
